@@ -153,8 +153,39 @@ pub fn factory_with(shared: &Rc<Shared>, backend: &Backend) -> Box<SatSolverFact
     })
 }
 
+thread_local! {
+    static CHOICE: Cell<Option<(u64, u8)>> = const { Cell::new(None) };
+}
+
+/// While alive, `factory()` on this thread hands out the embedded backend behind a `Chooser`.
+pub struct ChoiceScope(Option<(u64, u8)>);
+
+impl ChoiceScope {
+    pub fn enter(c: Option<(u64, u8)>) -> ChoiceScope {
+        ChoiceScope(CHOICE.with(|x| x.replace(c)))
+    }
+    /// One case in three (by a hash of its serialised form) runs with chosen models.
+    pub fn for_case<C: serde::Serialize>(case: &C) -> (ChoiceScope, bool) {
+        use std::hash::{Hash, Hasher};
+        let mut h = std::collections::hash_map::DefaultHasher::new();
+        serde_json::to_string(case).unwrap().hash(&mut h);
+        let v = h.finish();
+        let on = v % 3 == 0;
+        (ChoiceScope::enter(if on { Some((v >> 8, ((v >> 2) % 3) as u8)) } else { None }), on)
+    }
+}
+
+impl Drop for ChoiceScope {
+    fn drop(&mut self) {
+        CHOICE.with(|x| x.set(self.0));
+    }
+}
+
 pub fn factory(shared: &Rc<Shared>) -> Box<SatSolverFactoryFn> {
-    factory_with(shared, &embedded())
+    match CHOICE.with(|x| x.get()) {
+        Some((seed, bias)) => factory_with(shared, &choosy(seed, bias, 64)),
+        None => factory_with(shared, &embedded()),
+    }
 }
 
 pub fn wrap(shared: &Rc<Shared>, inner: Box<dyn SatSolver>) -> Wrapped {
@@ -169,3 +200,113 @@ pub fn wrap(shared: &Rc<Shared>, inner: Box<dyn SatSolver>) -> Wrapped {
 /// Default cap on SAT calls per query for checks that are not about the call bound:
 /// far above anything a correct computation on <= 13 arguments needs.
 pub const DEFAULT_CAP: usize = 30_000;
+
+/// A backend that quantifies over the SAT solver's freedom of choice: whenever the real
+/// backend reports a model, the chooser walks through the variables in a pseudo-random
+/// order (a pure function of `seed` and of the number of calls made so far) and tries to
+/// impose a pseudo-random polarity on each of them, keeping a polarity whenever the
+/// formula stays satisfiable under the caller's assumptions. The model handed back is a
+/// genuine model of the clauses under the assumptions, but not the one a default-phase
+/// CDCL solver would pick (which is nearly always a maximal one on these encodings).
+/// `Unsatisfiable` and `Unknown` are passed through unchanged.
+pub struct Chooser {
+    inner: Box<dyn SatSolver>,
+    seed: u64,
+    calls: u64,
+    /// at most this many additional backend calls per reported model
+    budget: usize,
+    /// 0: random polarity per variable; 1: prefer false; 2: prefer true
+    bias: u8,
+}
+
+fn mix(mut x: u64) -> u64 {
+    x = x.wrapping_add(0x9E37_79B9_7F4A_7C15);
+    x = (x ^ (x >> 30)).wrapping_mul(0xBF58_476D_1CE4_E5B9);
+    x = (x ^ (x >> 27)).wrapping_mul(0x94D0_49BB_1331_11EB);
+    x ^ (x >> 31)
+}
+
+impl SatSolver for Chooser {
+    fn add_clause(&mut self, cl: Vec<Literal>) {
+        self.inner.add_clause(cl)
+    }
+    fn solve(&mut self) -> SolvingResult {
+        self.solve_under_assumptions(&[])
+    }
+    fn solve_under_assumptions(&mut self, a: &[Literal]) -> SolvingResult {
+        self.calls += 1;
+        let mut best = self.inner.solve_under_assumptions(a);
+        let nv = self.inner.n_vars();
+        if nv == 0 || !matches!(best, SolvingResult::Satisfiable(_)) {
+            return best;
+        }
+        let mut st = mix(self.seed ^ self.calls.wrapping_mul(0x1000_0000_01B3));
+        // a pseudo-random permutation of the variables (Fisher-Yates)
+        let mut order: Vec<usize> = (1..=nv).collect();
+        for i in (1..nv).rev() {
+            st = mix(st);
+            let j = (st % (i as u64 + 1)) as usize;
+            order.swap(i, j);
+        }
+        let mut fixed: Vec<Literal> = a.to_vec();
+        let mut extra = 0usize;
+        let values = |r: &SolvingResult| -> Vec<Option<bool>> {
+            match r {
+                SolvingResult::Satisfiable(m) => m.iter().map(|(_, v)| v).collect(),
+                _ => vec![],
+            }
+        };
+        let mut vals = values(&best);
+        for v in order {
+            st = mix(st);
+            let want = match self.bias {
+                1 => st % 8 == 0,
+                2 => st % 8 != 0,
+                _ => st & 1 == 1,
+            };
+            let lit = Literal::from(if want { v as isize } else { -(v as isize) });
+            let cur = vals.get(v - 1).copied().flatten();
+            if cur == Some(want) {
+                fixed.push(lit);
+                continue;
+            }
+            if extra >= self.budget {
+                break;
+            }
+            extra += 1;
+            fixed.push(lit);
+            match self.inner.solve_under_assumptions(&fixed) {
+                r @ SolvingResult::Satisfiable(_) => {
+                    vals = values(&r);
+                    best = r;
+                }
+                _ => {
+                    fixed.pop();
+                    // the current model has the other polarity (or leaves the variable free)
+                    if cur.is_some() {
+                        fixed.push(lit.negate());
+                    }
+                }
+            }
+        }
+        best
+    }
+    fn n_vars(&self) -> usize {
+        self.inner.n_vars()
+    }
+    fn add_listener(&mut self, l: Box<dyn SolvingListener>) {
+        self.inner.add_listener(l)
+    }
+    fn reserve(&mut self, n: usize) {
+        self.inner.reserve(n)
+    }
+}
+
+/// The embedded backend behind a `Chooser`.
+pub fn choosy(seed: u64, bias: u8, budget: usize) -> Backend {
+    let n = Rc::new(Cell::new(0u64));
+    Rc::new(move || {
+        n.set(n.get() + 1);
+        Box::new(Chooser { inner: sat::default_solver(), seed: mix(seed ^ n.get()), calls: 0, budget, bias })
+    })
+}
